@@ -61,7 +61,8 @@ class Runner:
             self.layout = RegisterLayout([[6.0 * k, 0.0] for k in range(2 * self.dev["nq"] + 2)])
             reg = MappableRegister(self.layout, *[D.qid(k) for k in range(1, self.dev["nq"] + 1)])
         else:
-            reg = D.make_register(self.dev["nq"])
+            reg = D.make_register(self.dev["nq"], ids=D.reg_ids(self.dev))
+        self.ids = D.reg_ids(self.dev)
         self.seq = Sequence(reg, self.device)
         self.V = None
         if getattr(cfg, "variables", None):
@@ -70,9 +71,14 @@ class Runner:
                 self.V[name] = (self.seq.declare_variable(name, dtype=dtype) if size is None
                                 else self.seq.declare_variable(name, dtype=dtype, size=size))
 
+    def ids_of(self, mask):
+        # bits beyond the register keep naming ids that are not in it
+        return [self.ids[k - 1] if k <= len(self.ids) else D.qid(k) for k in range(1, 9) if (mask >> (k - 1)) & 1]
+
     def call(self, c):
         """Returns (out, ret)."""
         seq, cfg = self.seq, self.cfg
+        ids_of = self.ids_of
         u = cfg.phase_unit
         op = c["op"]
         pv = None
@@ -125,7 +131,7 @@ class Runner:
                     ret = int(seq.get_duration(name_of(c["nm"])))
                 elif op == "detmap":
                     reg = seq.register
-                    dmap = reg.define_detuning_map({D.qid(k + 1): w / 2 for k, w in enumerate(c["w2"])})
+                    dmap = reg.define_detuning_map({self.ids[k]: w / 2 for k, w in enumerate(c["w2"])})
                     seq.config_detuning_map(dmap, D.real_id(self.dev, c["cid"])
                                             if 1 <= c["cid"] <= len(self.dev["chs"]) else "dmm_9")
                 elif op == "slm":
